@@ -18,6 +18,7 @@ From LZ4V Require Import Proofs.DecRefineBase Proofs.DecRefineSafe Proofs.DecRef
 From LZ4V Require Import Proofs.DecConverse Proofs.DecConverseTop.
 From LZ4V Require Import Proofs.FastCap Proofs.InplaceMargin.
 From LZ4V Require Import Model.DecFast Proofs.DecFastRefine Proofs.DecFastTop.
+From LZ4V Require Import Proofs.DecFootprint.
 Import ListNotations.
 Local Open Scope Z_scope.
 
@@ -195,3 +196,34 @@ Example C05_fast_nonvacuous :
                           (store_list (mem_of_list 0 [7; 7; 7; 7; 7; 7; 7; 7; 7; 7; 7; 7; 7; 7]) (-3) hist) in
       (r, k, load_list m 0 14)) = (11, true, [97; 98; 120; 121; 122; 97; 98; 120; 121; 99; 100; 101; 102; 103]).
 Proof. vm_compute. repeat split; reflexivity. Qed.
+
+(* In-place decoding, aliasing-aware part (PARTIAL result, see the header of Proofs/DecFootprint.v).
+   FULL statement (not proved): with the block of done ++ rest, last at the end of one buffer of
+   d + LZ4_DECOMPRESS_INPLACE_MARGIN(d) bytes and the destination at its start, no store of
+   LZ4_decompress_safe reaches an address at or above the current input cursor before that input
+   byte is consumed, so the aliased run equals the run with separate buffers.
+   Proved: (a) for EVERY input and history placement, one whole iteration of the decoder that
+   continues with output cursor op' stores only below op' + 14 (safe loop) / op' + 31 (fast loop) and
+   advances op by at least 4; the iteration that ends the block stores only below the final op';
+   (b) combined with C05_inplace_margin's cursor_gap (>= 31 at every sequence boundary): nothing at
+   or above the input cursor of the boundary that follows the iteration is modified.
+   Missing: the load/store order inside one iteration (literal over-copy vs the offset and
+   match-length bytes of the same sequence, which are >= 32 bytes ahead), and the restatement of
+   the forward simulation with the two cursors in one address space. *)
+Theorem C05_inplace_step_footprint : step_footprint_stmt false 14 /\ step_footprint_stmt true 31.
+Proof. exact step_footprint. Qed.
+Print Assumptions C05_inplace_step_footprint.
+
+Theorem C05_inplace_footprint_partial :
+  forall (fast : bool) dict srcm iend oend lowPrefix rlow dictm dictSize s
+         (done rest : list seq) (last : list Z),
+    (forall a, 0 <= get srcm a < 256) ->
+    mlens_ok rest -> enc_len (done ++ rest) last <= total_len (done ++ rest) last ->
+    match (if fast then fast_top false dict srcm iend oend lowPrefix rlow dictm dictSize s
+           else safe_top false dict srcm iend oend lowPrefix rlow dictm dictSize s) with
+    | Cont _ s' => forall a, op s' + cursor_gap done rest last <= a -> get (dm s') a = get (dm s) a
+    | Done s' => forall a, op s' <= a -> get (dm s') a = get (dm s) a
+    | Err _ => True
+    end.
+Proof. exact inplace_footprint_partial. Qed.
+Print Assumptions C05_inplace_footprint_partial.
